@@ -44,6 +44,8 @@ pub struct LRun {
     pub samples: Vec<LSample>,
     /// 0 = no sample flags, 1 = first_sample_flags, 2 = per-sample flags
     pub flags_mode: u8,
+    /// the track fragment carries no run at all (tfhd says duration-is-empty); `samples` must be empty
+    pub no_trun: bool,
 }
 
 #[derive(Clone, Debug)]
@@ -62,6 +64,8 @@ pub struct LFragMovie {
     pub mehd: Option<u8>,
     /// use the 64-bit header form for every moof
     pub large_moof: bool,
+    /// sample payloads are not materialised (sizes beyond any real file): only counts and offsets are meaningful
+    pub offsets_only: bool,
 }
 
 #[derive(Clone, Debug, PartialEq, Eq)]
@@ -126,7 +130,7 @@ pub fn media_nodes(m: &LFragMovie) -> (Vec<Node>, Vec<(u32, Vec<FExpect>)>) {
             for s in r.samples.iter() {
                 let k = counters[ti];
                 counters[ti] += 1;
-                let bytes = sample_bytes(r.track_id, k, s.size);
+                let bytes = if m.offsets_only { vec![] } else { sample_bytes(r.track_id, k, s.size) };
                 buf.extend_from_slice(&bytes);
                 let dur = if r.per_sample_durations { s.delta } else { r.frag_default_duration.unwrap_or(tr.trex_default_duration) };
                 exp[ti].1.push(FExpect { anchor: label.clone(), rel: off, bytes, start: t_acc, duration: dur, cts: if r.cts_version.is_some() { s.cts } else { 0 } });
@@ -138,7 +142,7 @@ pub fn media_nodes(m: &LFragMovie) -> (Vec<Node>, Vec<(u32, Vec<FExpect>)>) {
             let (ml, dl) = (moof_label.clone(), label.clone());
             let th = Tfhd {
                 version: 0,
-                extra_flags: if base.moof_flag() { 0x020000 } else { 0 },
+                extra_flags: (if base.moof_flag() { 0x020000 } else { 0 }) | (if r.no_trun { 0x010000 } else { 0 }),
                 track_id: r.track_id,
                 base_data_offset: base.explicit().map(|_| 0),
                 sample_description_index: None,
@@ -186,7 +190,12 @@ pub fn media_nodes(m: &LFragMovie) -> (Vec<Node>, Vec<(u32, Vec<FExpect>)>) {
                     t.payload()
                 }),
             );
-            trafs.push(Node::kids(b"traf", vec![tfhd_node, tfdt(r.tfdt_version, r.base_time), trun_node]));
+            if r.no_trun {
+                assert!(r.samples.is_empty());
+                trafs.push(Node::kids(b"traf", vec![tfhd_node, tfdt(r.tfdt_version, r.base_time)]));
+            } else {
+                trafs.push(Node::kids(b"traf", vec![tfhd_node, tfdt(r.tfdt_version, r.base_time), trun_node]));
+            }
         }
         let mut kids = vec![mfhd(fi as u32 + 1)];
         kids.extend(trafs);
